@@ -187,6 +187,11 @@ def run(ctx):
                         l_, r_ = ps_
                         if (m_.group(1) in ("Le", "Eq") and prov_eq(l_, x) and prov_eq(r_, y)) or (m_.group(1) in ("Ge", "Eq") and prov_eq(l_, y) and prov_eq(r_, x)):
                             skip.update(pg.edge_node(bb, tgt))
+                        # a range written as [from, from + n): `n == 0` is the emptiness test
+                        if m_.group(1) == "Eq" and (r_ == "const:0" or l_ == "const:0"):
+                            n_ = l_ if r_ == "const:0" else r_
+                            if prov_eq(x, "Add(%s,%s)" % (y, n_)) or prov_eq(x, "Add(%s,%s)" % (n_, y)):
+                                skip.update(pg.edge_node(bb, tgt))
         zok = set()
         for z in zs:
             zok.update(v.ok_nodes(z.bb) or [("t", z.bb)])
